@@ -13,6 +13,7 @@
  R4 sub-register output folding: when `sub = value; base = CAST(sub)` is folded into one Def, the Def consumed from
     the input iterator is carried over into the output (the kind of cast is the consumed Def's, not a constant)
 Does not decide: block-level equivalence under register aliasing.
+ R3+ (added after seed C11c) whether an operand's implicit memory read becomes an explicit Load depends on that operand only
 """
 import re
 
